@@ -967,3 +967,50 @@ pub fn gen_giant_block_stream(rng: &mut Rng) -> (Compressor, Vec<u8>, Vec<u8>) {
     let raw = crate::lz77::encode(&plain, &p);
     (Compressor::Lz77(p), plain, raw)
 }
+
+/// a PNG-like file whose IDAT chunking is awkward on purpose: the first chunk holds only part
+/// of the 2 byte zlib header and/or the last chunk only 1-3 bytes of the Adler-32 (what writers
+/// with a fixed IDAT chunk size produce now and then), surrounded by a little junk
+pub fn gen_png_edge_file(rng: &mut Rng) -> Vec<u8> {
+    let plain_len = rng_range(rng, 1100, 9000);
+    let plain = gen_plaintext(rng, plain_len);
+    let raw = Compressor::random(rng).compress(&plain);
+    let mut z = Vec::with_capacity(raw.len() + 6);
+    z.push(0x78);
+    z.push(*rng.pick(&[0x01u8, 0x5e, 0x9c, 0xda]));
+    z.extend_from_slice(&raw);
+    z.extend_from_slice(&adler32(&plain).to_be_bytes());
+    let mut cuts: Vec<usize> = Vec::new();
+    if rng.chance(1, 2) {
+        cuts.push(1);
+    }
+    for _ in 0..rng.below(3) {
+        cuts.push(rng.range(2, (z.len() - 5) as u64) as usize);
+    }
+    cuts.push(z.len() - rng.range(1, 3) as usize);
+    cuts.sort();
+    cuts.dedup();
+    cuts.push(z.len());
+    let mut out = Vec::new();
+    out.extend_from_slice(&[0x89, b'P' ^ 0x20, b'N', b'G', 0x0d, 0x0a, 0x1a, 0x0a]);
+    let mut start = 0usize;
+    for &c in cuts.iter() {
+        let piece = &z[start..c];
+        out.extend_from_slice(&(piece.len() as u32).to_be_bytes());
+        out.extend_from_slice(b"IDAT");
+        out.extend_from_slice(piece);
+        let mut h = crc32fast::Hasher::new();
+        h.update(b"IDAT");
+        h.update(piece);
+        out.extend_from_slice(&h.finalize().to_be_bytes());
+        start = c;
+    }
+    out.extend_from_slice(&[0, 0, 0, 0]);
+    out.extend_from_slice(b"IEND");
+    out.extend_from_slice(&[0xae, 0x42, 0x60, 0x82]);
+    out
+}
+
+fn rng_range(rng: &mut Rng, lo: u64, hi: u64) -> usize {
+    rng.range(lo, hi) as usize
+}
